@@ -45,6 +45,7 @@ def program(rnd):
     """a reflect-using, literal-using three-package program with a -X target"""
     prog = progen.Prog(rnd, npkgs=3)
     progen.s_reflect(prog, None)
+    progen.s_json_via_dependency(prog)
     progen.s_structs(prog)
     progen.s_ldflags(prog)
     progen.s_consts(prog)
